@@ -95,11 +95,27 @@ func opposite(a byte) byte {
 // edge. visit is called on entering each (block, facts) state; returning true
 // stops the whole search.
 func walkPaths(fn *ssa.Function, cuts map[Edge]bool, visit func(b *ssa.BasicBlock, facts pathFacts) bool) {
-	walkPathsWith(fn, cuts, absValue, visit)
+	walkPathsOpt(fn, cuts, walkOpts{}, visit)
 }
 
 // walkPathsWith is walkPaths with a custom abstract evaluator.
 func walkPathsWith(fn *ssa.Function, cuts map[Edge]bool, abs func(v ssa.Value, f pathFacts) byte, visit func(b *ssa.BasicBlock, facts pathFacts) bool) {
+	walkPathsOpt(fn, cuts, walkOpts{abs: abs}, visit)
+}
+
+type walkOpts struct {
+	abs func(v ssa.Value, f pathFacts) byte
+	// loops a path may leave through the header only after one iteration
+	// (models "the collection ranged over is not empty")
+	mustIterate []*loopInfo
+}
+
+func walkPathsOpt(fn *ssa.Function, cuts map[Edge]bool, o walkOpts, visit func(b *ssa.BasicBlock, facts pathFacts) bool) {
+	abs := o.abs
+	if abs == nil {
+		abs = absValue
+	}
+
 	if len(fn.Blocks) == 0 {
 		return
 	}
@@ -149,6 +165,24 @@ func walkPathsWith(fn *ssa.Function, cuts map[Edge]bool, abs func(v ssa.Value, f
 
 			nf := facts
 			feasible := true
+
+			for _, li := range o.mustIterate {
+				if li.header != b || ifi == nil {
+					continue
+				}
+
+				marker := ifi.Cond
+
+				if li.body[succ] && succ != b {
+					nf = nf.with(marker, 'I')
+				} else if facts[marker] != 'I' {
+					feasible = false
+				}
+			}
+
+			if !feasible {
+				continue
+			}
 
 			if ifi != nil {
 				for _, ft := range withCellFacts(edgeFacts(ifi.Cond, i == 0)) {
